@@ -13,3 +13,99 @@ def obligations(ctx, cfg):
     h.id = 'C15.b/d-pull-handler'
     return [StepPull(ctx, 1, nb, 0, 'batch', 'C15.a/c'),
             StepPull(ctx, 0, nb, 0, 'batch', 'C15.a-len64', lazy_len=True), h]
+
+
+class StreamingLimit(Obligation):
+    """StreamingPull: the first request's max_outstanding_messages is the limit of every pull the stream makes"""
+    tier = 'T3'
+    id = 'C15.e-streaming-limit'
+    desc = ('streaming_pull: a positive max_outstanding_messages that is accepted bounds the limit of every PullMessages request the stream makes '
+            '(the 64-bit field is not wrapped into 16 bits), and a response carries no more messages than that pull handed out')
+    bounds = {'max_outstanding_messages': 'all i64', 'polls of the output stream': 2, 'pull rounds per poll': 3, 'messages handed out per pull': '0..1 (the step obligations C15.a/c bound the batch by the limit)'}
+    unroll = 3
+    allow_out_of_bound = True      # a stream whose signal keeps firing with nothing to pull loops for ever: cut at the unrolling bound
+
+    def __init__(self, ctx, polls=2, rounds=3):
+        install_tokens(ctx)
+        self.polls, self.unroll = polls, rounds
+        self.bounds = dict(self.bounds, **{'polls of the output stream': polls, 'pull rounds per poll': rounds})
+
+    def body(self, ip, p):
+        ctx = ip.ctx
+        from props.C10 import typed_reply
+        from props.service import proto, sym_managers, start_handler, request
+        from framework import run_async, find_values
+        from models_async import StreamingM, MergeM, poll_stream_next
+        from models_str import StrTok
+        from models_core import ok
+        from models_coll import Seq
+        ctx.on_enqueue = typed_reply
+        h = sym_managers(ctx, p)
+        p.assume(h['subs'][0][0])
+        stok = h['subs'][0][1]
+        U = ctx.tok_ufs
+        regname = mk(ctx, 'SubscriptionName', project_id=StrTok(U['sub_proj'](stok)), subscription_id=StrTok(U['sub_id'](stok)))
+        ip.hooks[r'^parse_subscription_name$'] = lambda ip_, callee, args: (ok(regname),)
+        mom = p.fresh('max_outstanding_messages')
+        p.assume(z3.And(mom >= -(1 << 63), mom < (1 << 63)))
+        first = proto(ctx, 'StreamingPullRequest', subscription=StrTok(p.fresh('name_field')), ack_ids=Seq.empty(), modify_deadline_seconds=Seq.empty(),
+                      modify_deadline_ack_ids=Seq.empty(), max_outstanding_messages=S(mom, 'i64'), max_outstanding_bytes=S(p.fresh('mob'), 'i64'))
+        fut = start_handler(ip, p, 'subscriber', 'streaming_pull', h['subscriber'], request(StreamingM([first])))
+        res, _ = run_async(ip, p, fut, budget=0)
+        items = []
+        if res.discr == 0:
+            out_stream = find_values(res, MergeM)[0].b
+            for _ in range(self.polls):
+                r = run_to_end(poll_stream_next(ip, out_stream))
+                if r.discr == 1:
+                    break
+                items.append(r.payload[0][0])
+        return {'ret': res, 'mom': mom, 'log': list(p.log), 'items': items, 'lens': list(getattr(p, 'pulled_lens', []))}
+
+    def post(self, ip, p, res):
+        ctx = ip.ctx
+        from props.service import status_code
+        from framework import model_value
+        mom, log, r = res['mom'], res['log'], res['ret']
+        ev = ip.src.enum_variants('SubscriptionRequest')
+        enq = [e for e in log if e[0] == 'enqueue' and e[1] == 'subscription' and ev[e[3].discr][0] == 'PullMessages']
+        in_range = z3.And(mom >= 0, mom <= 65535)
+        out = []
+        if r.discr == 1:
+            # whether and how out-of-range values are refused is not C15's business (C17 owns rejections); a positive value that fits must be served
+            out.append(Claim('a positive limit that fits 16 bits is not refused for its value', z3.Or(z3.Not(z3.And(mom >= 1, mom <= 65535)), z3.BoolVal(status_code(r.payload[1][0]) != 'invalid_argument'))))
+            out.append(Cover('rejected: above 65535', mom > 65535))
+            out.append(Cover('rejected: negative', mom < 0))
+            return out
+        out.append(Claim('the stream pulled', len(enq) >= 1))
+        out.append(Claim('a positive max_outstanding_messages bounds the limit of every pull the stream makes',
+                         z3.Implies(mom > 0, z3.And([e[3].payload[e[3].discr][0].t <= mom for e in enq] or [z3.BoolVal(False)]))))
+        order = ctx.src.struct_fields('StreamingPullResponse', 'pubsub_proto_generated')
+        nonempty = [n for n in res['lens']]
+        got = []
+        for it in res['items']:
+            if it.discr != 1:
+                continue
+            item = it.payload[1][0]
+            if item.discr != 0:
+                continue
+            got.append(item.payload[0][0].fields[order.index('received_messages')])
+        out.append(Claim('no response without a pull', len(got) <= len(res['lens'])))
+        # responses are yielded only for non-empty pulls, in order
+        if got and res['lens']:
+            out.append(Claim('the first response carries no more messages than a pull of this stream handed out', z3.Or([z3.And(got[0].n <= n, n > 0) for n in res['lens']])))
+        out.append(Cover('a response was streamed', len(got) >= 1))
+        out.append(Cover('limit 1', mom == 1))
+        out.append(Cover('limit 65535', mom == 65535))
+        return out
+
+    def model_info(self, p, m, res):
+        return {'class': 'streaming-limit', 'max_outstanding_messages': model_value(m, res['mom'])} if res else {}
+
+
+_obligations_c15 = obligations
+
+
+def obligations(ctx, cfg):
+    q = cfg['tier'] == 'quick'
+    return _obligations_c15(ctx, cfg) + [StreamingLimit(ctx, 1, 2) if q else StreamingLimit(ctx, 2, 3)]
